@@ -232,7 +232,11 @@ func zzCheckInvariants(db *storage.CacheDB, root *Header) []zzStoredHeader {
 	stored := zzStoredHeaders(db)
 
 	// (A) stored headers form a tree below the trust root with consistent heights and total difficulties
+	// The total-difficulty comparisons are symbolic; each clause is collected over all stored headers and decided
+	// by ONE solver query: big.Int.Cmp yields -1/0/+1, so the bitwise OR of the results is 0 iff all are 0 and is
+	// negative iff one of them is -1.
 	rootSeen := false
+	tdMismatch, headBelow := 0, 0
 	for _, s := range stored {
 		if bytes.Equal(s.hash, rootHash.Bytes()) {
 			rootSeen = true
@@ -247,8 +251,9 @@ func zzCheckInvariants(db *storage.CacheDB, root *Header) []zzStoredHeader {
 		p, ptd, err := GetHeaderByHash(ns, s.h.ParentHash.Bytes(), zzChain)
 		zzsym.Assert(err == nil, "the parent of a stored header can be read")
 		zzsym.Assert(s.h.Number.Uint64() == p.Number.Uint64()+1, "a stored header's height is one above its parent's")
-		zzsym.Assert(s.td.Cmp(new(big.Int).Add(ptd, s.h.Difficulty)) == 0, "a stored header's total difficulty is its parent's plus its own")
+		tdMismatch |= s.td.Cmp(new(big.Int).Add(ptd, s.h.Difficulty))
 	}
+	zzsym.Assert(tdMismatch == 0, "a stored header's total difficulty is its parent's plus its own")
 	zzsym.Assert(rootSeen, "the trust root stays stored")
 
 	// (B) canonical index: gap-free and parent-linked from the trust root to the head
@@ -275,8 +280,9 @@ func zzCheckInvariants(db *storage.CacheDB, root *Header) []zzStoredHeader {
 
 	// (C) the head is a heaviest stored header
 	for _, s := range stored {
-		zzsym.Assert(headTD.Cmp(s.td) >= 0, "the head's total difficulty is maximal among stored headers")
+		headBelow |= headTD.Cmp(s.td)
 	}
+	zzsym.Assert(headBelow >= 0, "the head's total difficulty is maximal among stored headers")
 	return stored
 }
 
@@ -329,7 +335,11 @@ func zzTree(T int, witness bool) {
 		if kind == zzUnknownParent {
 			pHash[0], pHash[1] = 0xee, byte(step)
 		} else {
-			pi = zzsym.Choose("parent", len(nodes))
+			if kind == zzBadSeal || kind == zzWrongDifficulty {
+				pi = headIdx // these refusals do not depend on the position in the tree: one position is explored
+			} else {
+				pi = zzsym.Choose("parent", len(nodes))
+			}
 			pHash = nodes[pi].h.Hash()
 			number = nodes[pi].h.Number.Uint64() + 1
 		}
